@@ -664,6 +664,29 @@ def run_one(ctl: explorer.Ctl, cfg: Dict[str, Any]) -> Dict[str, Any]:
 
 
 # ---------------------------------------------------------------------------
+def _pick(part, cfgs):
+    out = []
+    for i in sorted({0, len(cfgs) // 2, len(cfgs) - 1}):
+        c = dict(cfgs[i])
+        if "ids" in c:
+            ids = c.pop("ids")
+            c["id"] = None if c.get("id") is None else _show(ids[c["id"]])[:40]
+        if "ctor" in c:
+            c["ctor"] = _ctor_label(c["ctor"])
+        if c.get("method") is not None and c["part"] in ("ctor", "stdio"):
+            c["method"] = METHODS[c["method"]]
+        if c["part"] == "server":
+            c["case"] = list(SERVER_CASES[c["case"]])
+        if c["part"] == "stdio":
+            c["kind"] = STDIO_KINDS[c["kind"]]
+        if c["part"] == "helper":
+            c["helper"] = hd.short(c["helper"])
+            c["text"] = TEXTS[c["text"]]
+        c["payloads"] = f"payload table entries [{c.pop('lo', 0)}, {c.pop('hi', 0)}) at depth {c.get('depth')}"
+        out.append({"part": part, "index": i, "case": c})
+    return out
+
+
 def _ranges(n: int, step: int) -> List[Tuple[int, int]]:
     return [(a, min(n, a + step)) for a in range(0, n, step)]
 
@@ -762,10 +785,12 @@ def run(tier: str, only=None) -> core.Result:
             cfgs += ctor_cfgs(c, 2, IDS)
     out = explorer.explore(RUN, cfgs)
     sched.absorb(res, "a-constructors", RUN, out, cfgs)
+    samples = _pick("a-constructors", cfgs)
 
     # ---- (b) helpers -----------------------------------------------------------------------
     out = explorer.explore(RUN, helper_cfg)
     sched.absorb(res, "b-send-helpers", RUN, out, helper_cfg)
+    samples += _pick("b-send-helpers", helper_cfg)
 
     # ---- (c) server ------------------------------------------------------------------------
     ids_srv = IDS if tier == "quick" else IDS_FEW
@@ -776,6 +801,7 @@ def run(tier: str, only=None) -> core.Result:
                  for ci in range(len(SERVER_CASES)) for ii in range(len(IDS))]
     out = explorer.explore(RUN, cfgs)
     sched.absorb(res, "c-server-handler", RUN, out, cfgs)
+    samples += _pick("c-server-handler", cfgs)
 
     # ---- (d) transports ----------------------------------------------------------------------
     cfgs = []
@@ -790,6 +816,7 @@ def run(tier: str, only=None) -> core.Result:
                                  "lo": lo, "hi": hi})
     out = explorer.explore(RUN, cfgs)
     sched.absorb(res, "d-stdio-serialiser", RUN, out, cfgs)
+    samples += _pick("d-stdio-serialiser", cfgs)
     cfgs = [{"part": "rejection"}]
     out = explorer.explore(RUN, cfgs)
     sched.absorb(res, "d-batch-rejection-error", RUN, out, cfgs, min_outcomes=1)
@@ -800,6 +827,7 @@ def run(tier: str, only=None) -> core.Result:
         for k, v in p["counters"].items():
             cnt[k] = cnt.get(k, 0) + v
     cov = res.coverage
+    cov["samples"] = samples  # chosen by position in the enumeration, so identical from run to run
     cov["evaluations"] = cnt.get("cases", 0) + cnt.get("calls", 0)
     cov["messages_emitted_and_judged"] = cnt.get("emitted", 0)
     cov["serialised_forms_judged"] = cnt.get("forms_judged", 0)
